@@ -162,12 +162,15 @@ CHECK_RE = re.compile(r"^Check (\d+): ([^\n]+)\n\t - Status: (\w+)\n\t - Descrip
 def parse_kani(out):
     """Parse kani's regular output format."""
     checks = []
-    for m in CHECK_RE.finditer(out):
-        desc = m.group(4)
+    # one block per check: "Check N: <id>\n\t - Status: ..\n\t - Description: \"..\"\n\t - Location: .."
+    for blk in re.split(r"\n(?=Check \d+: )", out):
+        m = re.match(r"Check (\d+): ([^\n]+)\n\t - Status: (\w+)\n\t - Description: \"(.*?)\"\n(?:\t - Location: ([^\n]*))?", blk, re.S)
+        if not m:
+            continue
+        desc = re.sub(r"\s+", " ", m.group(4))
         if len(desc) >= 2 and desc[0] == '"' and desc[-1] == '"':
             desc = desc[1:-1]
-        loc = m.group(5)
-        checks.append({"id": m.group(2), "status": m.group(3), "desc": desc, "loc": loc})
+        checks.append({"id": m.group(2), "status": m.group(3), "desc": desc, "loc": m.group(5) or ""})
     res = {"checks": checks}
     m = re.search(r"VERIFICATION:- (\w+)", out)
     res["verdict"] = m.group(1) if m else None
@@ -177,6 +180,11 @@ def parse_kani(out):
     res["covers"] = (int(m.group(1)), int(m.group(2))) if m else (0, 0)
     m = re.search(r"Generated (\d+) VCC\(s\), (\d+) remaining after simplification", out)
     res["vccs"] = int(m.group(2)) if m else None
+    m = re.search(r"\*\* (\d+) of (\d+) failed", out)
+    res["summary_failed"], res["summary_total"] = (int(m.group(1)), int(m.group(2))) if m else (None, None)
+    n_noncover = sum(1 for c in checks if ".cover." not in c["id"])
+    n_fail = sum(1 for c in checks if ".cover." not in c["id"] and c["status"] == "FAILURE")
+    res["parse_mismatch"] = m is not None and (n_noncover != res["summary_total"] or n_fail != res["summary_failed"])
     res["oom"] = bool(re.search(r"Status: ERROR|out of memory|std::bad_alloc|Out of memory|memory exhausted", out))
     res["compile_error"] = bool(re.search(r"error(\[E\d+\])?: |could not compile|Failed to execute cargo", out)) and res["verdict"] is None
     res["unsupported"] = [c for c in checks if "unsupported" in c["id"] and c["status"] == "FAILURE"]
@@ -202,7 +210,7 @@ def run_harness(h, tier, use_cache=True, extra=(), log_suffix=""):
         timed_out = False
         with open(logp, "w") as lf:
             p = subprocess.Popen(cmd, cwd=cwd, env=kani_env(), stdout=lf, stderr=subprocess.STDOUT,
-                                 preexec_fn=limit_mem(max(16, h["mem_gb"] * 1.25)))
+                                 preexec_fn=limit_mem(48 if extra else max(16, h["mem_gb"] * 1.25)))
             try:
                 p.wait(timeout=h["timeout_s"] * (3 if extra else 1))
             except subprocess.TimeoutExpired:
@@ -244,6 +252,9 @@ def classify(h, r):
         return fails, covers_bad, inconclusive
     if r.get("compile_error"):
         inconclusive.append("harness does not compile against the current tree (harness out of date?) - see " + r["log"])
+        return fails, covers_bad, inconclusive
+    if r.get("parse_mismatch"):
+        inconclusive.append("runner parsed %d checks but kani's summary reports %s (parser out of date) - see %s" % (len(r["checks"]), r.get("summary_total"), r["log"]))
         return fails, covers_bad, inconclusive
     if r["oom"] or r["verdict"] is None:
         inconclusive.append("no verdict (out of memory or tool error) - see " + r["log"])
